@@ -799,7 +799,11 @@ Definition run_op (st : pstate) (o : op) : pstate * out :=
   | OReplyError d s ty cond text =>
       with_tree st s (fun _ _ t => new_handle st d (stanza_reply_error t ty cond text))
   | OErrorNew d ty text => new_handle st d (Some (error_new ty text))
-  | OToText s => with_tree st s (fun h id t => (st, OText (to_text (ctx_of h id) t)))
+  | OToText s =>
+      (* the stanza handed to xmpp_stanza_to_text is the top of the output; before the repair its own parent's
+         xmlns was consulted (render_root_is_top = false) *)
+      with_tree st s (fun h id t =>
+        (st, OText (to_text (if render_root_is_top then NoParent else ctx_of h id) t)))
   | ODump s =>
       match slot st s with
       | None => (st, OSkip)
